@@ -555,7 +555,7 @@ class ActionParser:
         def add_prefix(key):
             return re.sub("^--", "--" + prefix + ".", key)
 
-        required_args = {prefix + "." + x for x in subparser.required_args}
+        required_args = {prefix.replace("-", "_") + "." + x for x in subparser.required_args}  # (keys of the config, i.e. dests)
 
         option_string_actions = {}
         for key, action in filter_default_actions(subparser._option_string_actions).items():
